@@ -920,6 +920,9 @@ func genHealCase(r *lib.Rng, i int) *healCase {
 }
 
 func runC06(c *Ctx) error {
+	if os.Getenv("WHARFOBS_C06_ONLY") == "fsmodel" { // debugging aid
+		return runFSModel(c)
+	}
 	idx := 0
 	for _, hc := range healCorpus() {
 		if err := runHealCase(c, hc, idx); err != nil {
@@ -928,7 +931,7 @@ func runC06(c *Ctx) error {
 		idx++
 	}
 	r := c.Rng.Fork()
-	n := c.N(120, 1500)
+	n := c.N(108, 800)
 	for i := 0; i < n; i++ {
 		cr := r.Fork()
 		hc := genHealCase(cr, i)
